@@ -50,6 +50,9 @@ def jobs(tier):
     for (si, so, o) in combos2:
         for i in range(0, 8):
             out.append(("gvc.props.c06", "ob_layer", dict(D=2, sin=si, sout=so, opt=o, gs=[i])))
+    # a layer that has been through a pytree round trip, equal channel counts, targets listed in non-sorted order
+    for i in ([1, 4] if q else range(8)):
+        out.append(("gvc.props.c06", "ob_layer", dict(D=2, sin=combos2[0][0], sout=combos2[0][1], opt=combos2[0][2], gs=[i], history="pytree", eqc=True)))
     g3 = [9, 24, 33] if q else list(range(48))
     combos3 = [([(0, 0), (1, 0)], [(1, 0), (0, 0)], dict(padding=None, rdil=1, ldil=None, flags=[True, False, True]))]
     if not q:
@@ -83,7 +86,9 @@ def _bank(G, D, W, types, ops, M=3):
     return G.MultiImage(blocks, D, True), blocks
 
 
-def ob_layer(D, sin, sout, opt, gs):
+def ob_layer(D, sin, sout, opt, gs, history="fresh", eqc=False):
+    """history='pytree': the layer has been through a pytree flatten / unflatten (jit, an optimiser step, load) before it is
+    called -- dict-valued fields in sorted key order; eqc: one channel count shared by all input types and one by all targets"""
     Gm, Lm = geom(), L()
     ops = [np.asarray(g) for g in c02.ops(D)]
     arr.ENUM_SMALL[0] = 3
@@ -94,8 +99,12 @@ def ob_layer(D, sin, sout, opt, gs):
         W = World(D)
         ftypes = sorted({(a[0] + b[0], (a[1] + b[1]) % 2) for a in sin for b in sout})
         bank, fblocks = _bank(Gm, D, W, ftypes, ops)
-        ich = {k: Atom(sint(f"ci{k[0]}{k[1]}", W.pre), f"ci{k[0]}{k[1]}") for k in sin}
-        och = {k: Atom(sint(f"co{k[0]}{k[1]}", W.pre), f"co{k[0]}{k[1]}") for k in sout}
+        if eqc:
+            ci_, co_ = Atom(sint("ci", W.pre), "ci"), Atom(sint("co", W.pre), "co")
+            ich, och = {k: ci_ for k in sin}, {k: co_ for k in sout}
+        else:
+            ich = {k: Atom(sint(f"ci{k[0]}{k[1]}", W.pre), f"ci{k[0]}{k[1]}") for k in sin}
+            och = {k: Atom(sint(f"co{k[0]}{k[1]}", W.pre), f"co{k[0]}{k[1]}") for k in sout}
         isig = Gm.Signature(tuple((k, ich[k].ext) for k in sin))
         osig = Gm.Signature(tuple((k, och[k].ext) for k in sout))
         rd = opt["rdil"]
@@ -113,6 +122,9 @@ def ob_layer(D, sin, sout, opt, gs):
 
         def run(X=X, gX=gX, g=g):
             layer = Lm.ConvContract(isig, osig, bank, False, 1, pd, ld, rd, key=("key", 0))
+            if history == "pytree":
+                leaves, rebuild = lib.tree_flatten_obj(layer)
+                layer = rebuild(leaves)
             y0 = layer(Gm.MultiImage(dict(X), D, flags))
             yg = layer(Gm.MultiImage(dict(gX), D, rotated_flags(flags, g)))
             return y0, yg
@@ -125,8 +137,11 @@ def ob_layer(D, sin, sout, opt, gs):
             return cmp_blocks(yg, spec, D, rotated_flags(flags, g), list(y0.keys()), "layer(g.x) vs g.layer(x)")
 
         name = f"C06/ConvContract/D={D},in={_fmt(sin)},out={_fmt(sout)},pad={opt['padding']},rdil={rd},ldil={opt['ldil']},flags={opt['flags']},g#{gi}"
+        if history != "fresh" or eqc:
+            name += f",history={history},equal_channels={eqc}"
+            structure.update(history=history, equal_channels=eqc)
         o = guard(name + "/ensures:equivariant", "ensures", lambda W=W, run=run, post=post: all_paths(W.pre, run, post), structure)
-        o["replay"] = dict(scenario="layer", model=o.get("model"), D=D, sin=sin, sout=sout, opt=opt, g=g.tolist(), use_bias=False)
+        o["replay"] = dict(scenario="layer", model=o.get("model"), D=D, sin=sin, sout=sout, opt=opt, g=g.tolist(), use_bias=False, history=history, equal_channels=eqc)
         obs.append(o)
     obs.append(cover(f"C06/ConvContract/D={D},in={_fmt(sin)},out={_fmt(sout)}/cover:pre#{gs[0]}", W.pre, dict(D=D)))
     # canary: a NON-invariant (arbitrary opaque) filter bank must break equivariance for a rotation
